@@ -335,6 +335,9 @@ def units(tier):
             return db
         ip.ext_models["json.load"] = Builtin("load", load_model)
         ob = outcome_of(lambda: ip.call_function(func(MG + ".get_remote"), [mgr, rid], {}, ctx))
+        if ctx.ghost.module_writes:
+            # state shared by all managers (a module-level cache): one call from the initial module state decides nothing
+            raise Unsupported("get_remote writes module-level state: " + str(ctx.ghost.module_writes[:1]))
         base = f"{PROP}/get_remote/" + ("cached" if cached else "first_request_" + ("id_in_database" if in_db else "id_not_in_database"))
         frame = mgr.attrs.get("_remotes_db") is view and mgr.attrs.get("_remotes_db_fpath") is path and not db.stores
         obs.append(Obligation(base + "/manager_fields_and_database_untouched", ctx, frame))
